@@ -60,8 +60,10 @@ func heavySteps(p []step) int {
 func (w *world) probeScript() []byte {
 	bw := io.NewBufBinWriter()
 	p := w.A
+	n := 0
 	call := func(h util.Uint160, m string, args ...any) {
 		emit.AppCall(bw.BinWriter, h, m, callflag.ReadOnly, args...)
+		n++
 	}
 	call(p.PolH, "getFeePerByte")
 	call(p.PolH, "getStoragePrice")
@@ -96,7 +98,7 @@ func (w *world) probeScript() []byte {
 		call(p.GasH, "balanceOf", s)
 		call(p.NeoH, "balanceOf", s)
 	}
-	emit.Int(bw.BinWriter, 60)
+	emit.Int(bw.BinWriter, int64(n))
 	emit.Opcodes(bw.BinWriter, opcode.PACK)
 	return bw.Bytes()
 }
@@ -124,8 +126,7 @@ func planSession(t *testing.T, run *ev.Run, si, nPlans int) *violation {
 	w, err := newWorld(t, si)
 	defer w.close()
 	if err != nil {
-		run.Inconclusive("plans/s%d: set-up failed: %v", si, err)
-		return nil
+		return setupFailure(run, "plans", si, err)
 	}
 	w.A.Cfg.Observe = false
 	r := rng.New(uint64(si)*13 + 7000)
@@ -133,6 +134,9 @@ func planSession(t *testing.T, run *ev.Run, si, nPlans int) *violation {
 	m.funded = nBase
 	for s := 0; s < nBase; s++ {
 		m.exists[s] = true
+	}
+	for k := nDummies - nPreBlocked; k < nDummies; k++ {
+		m.blocked[-1-k] = true
 	}
 	var history []string
 	for k := 0; k < nPlans; k++ {
@@ -143,7 +147,7 @@ func planSession(t *testing.T, run *ev.Run, si, nPlans int) *violation {
 			res          result
 		)
 		for attempt := 0; ; attempt++ {
-			g := &gen{r: r, cfg: genCfg{slots: nSlots, base: nBase, users: 10, maxDepth: 4, natives: r.Intn(5) != 0, committee: committee}, m: m}
+			g := &gen{r: r, cfg: genCfg{slots: nSlots, base: nBase, users: 10, dummies: nDummies, maxDepth: 4, natives: r.Intn(5) != 0, committee: committee}, m: m}
 			if r.Intn(10) < 3 {
 				root = g.shaped(r.Intn(nShapes))
 			} else {
@@ -183,7 +187,27 @@ func planSession(t *testing.T, run *ev.Run, si, nPlans int) *violation {
 			run.Obs("plans_skipped_too_big", 1)
 			continue
 		}
-		ta, tb, err := w.txPair("plan", signers, sA, sB, int64(40+25*heavySteps(root))*1_0000_0000)
+		sysFee := int64(40+25*heavySteps(root)) * 1_0000_0000
+		outOfGas := false
+		if x := r.Intn(10); x < 4 {
+			// chain A alone test-invokes the script first (as an RPC client would):
+			// a discarded execution must leave nothing behind either
+			tx := transaction.New(sA, sysFee)
+			tx.ValidUntilBlock = w.A.BC.BlockHeight() + 1
+			for _, sg := range signers {
+				tx.Signers = append(tx.Signers, transaction.Signer{Account: sg.ScriptHash(), Scopes: transaction.Global})
+			}
+			v, terr := w.A.E.TestInvoke(tx)
+			run.Obs("plans_test_invoked_on_one_chain_first", 1)
+			if x < 2 && terr == nil && !wantFault && v.GasConsumed() > 2000_0000 {
+				// grant only a part of the GAS the plan needs: it runs dry somewhere in the middle
+				sysFee = v.GasConsumed() * int64(10+r.Intn(85)) / 100
+				outOfGas, wantFault, sB = true, true, abortScript
+				res = rAbort
+				run.Obs("plans_out_of_gas_in_the_middle", 1)
+			}
+		}
+		ta, tb, err := w.txPair("plan", signers, sA, sB, sysFee)
 		if err != nil {
 			run.Inconclusive("plans/s%d: %v", si, err)
 			return nil
@@ -198,7 +222,7 @@ func planSession(t *testing.T, run *ev.Run, si, nPlans int) *violation {
 		if r.Intn(4) == 0 {
 			post = append(post, w.smallTransfer(4, 3, int64(1+r.Intn(100))))
 		}
-		desc := fmt.Sprintf("#%d committee=%v want=%s: %s", k, committee, map[bool]string{true: "FAULT", false: "HALT"}[wantFault], planString(root))
+		desc := fmt.Sprintf("#%d committee=%v oog=%v want=%s: %s", k, committee, outOfGas, map[bool]string{true: "FAULT", false: "HALT"}[wantFault], planString(root))
 		history = append(history, desc)
 		wit := func(extra map[string]any) map[string]any {
 			h := history
@@ -206,7 +230,7 @@ func planSession(t *testing.T, run *ev.Run, si, nPlans int) *violation {
 				h = h[len(h)-12:]
 			}
 			m := map[string]any{"session": si, "protocol": w.proto, "plan_index": k, "plan": planString(root), "pruned": planString(pruned), "reference_result": map[bool]string{true: "FAULT", false: "HALT"}[wantFault],
-				"height": w.A.BC.BlockHeight(), "position_in_block": len(pre), "script_hex": fmt.Sprintf("%x", sA), "session_so_far": h}
+				"height": w.A.BC.BlockHeight(), "position_in_block": len(pre), "system_fee": sysFee, "out_of_gas_variant": outOfGas, "script_hex": fmt.Sprintf("%x", sA), "session_so_far": h}
 			for k, v := range extra {
 				m[k] = v
 			}
@@ -368,6 +392,17 @@ func planSession(t *testing.T, run *ev.Run, si, nPlans int) *violation {
 	return nil
 }
 
+// setupFailure turns a failed set-up into a violation when the node misbehaved
+// on the fixed set-up script, and into an inconclusive note otherwise.
+func setupFailure(run *ev.Run, part string, si int, err error) *violation {
+	if ne, ok := err.(*nodeError); ok {
+		run.Case("setup:"+ne.kind, true)
+		return &violation{"setup:" + ne.kind, ne.err.Error(), map[string]any{"session": si, "part": part}}
+	}
+	run.Inconclusive("%s/s%d: set-up failed: %v", part, si, err)
+	return nil
+}
+
 // classify names the direction of a difference between what the chain holds
 // and what it should hold.
 func classify(got, want []string, faulted bool) string {
@@ -425,7 +460,14 @@ func TestCheck(t *testing.T) {
 	if part == "all" || part == "twins" {
 		perSession := 8
 		nSessions := ev.Pick(5, 50)
-		runSessions(t, run, "twins", nSessions, workers, func(si int) *violation { return twinSession(t, run, si, perSession) })
+		runSessions(t, run, "twins", nSessions, workers, func(si int) *violation { return twinSession(t, run, si, perSession, false) })
+	}
+	if part == "race" {
+		// the twin workload under the race detector with concurrent readers: a
+		// native cache layer that shares a container with the layer below it is
+		// written by a (discarded) execution while RPC-like readers use it.
+		nSessions := ev.Pick(3, 12)
+		runSessions(t, run, "race", nSessions, 3, func(si int) *violation { return twinSession(t, run, 500+si, 6, true) })
 	}
 }
 
